@@ -443,13 +443,226 @@ pub fn zbsdiff_one_hostile_field(rng: &mut Rng, old: &[u8]) -> Case {
     Case { data, aux: old.to_vec(), flags: 0, origin: format!("zbsdiff consistent patch with one hostile field: entry {victim} field {} = {v}", ["seek", "seek", "seek", "seek", "diff_size", "extra_size"][field as usize]) }
 }
 
+/// File-name generator for the directory-scan targets: names of exactly (or nearly) the byte
+/// length the name parsers expect (14 = `{bucket:02x}{version:08x}.idx`, 20 = `{gen:016x}.lru`),
+/// built from hex digits, other ASCII and multi-byte characters at every position, with the
+/// expected extension in either case, so that the slicing of the fixed-width fields is
+/// exercised at and around character boundaries.
+pub fn filename_case(rng: &mut Rng, seeds: &[Seed]) -> Case {
+    const ATOMS: &[&str] = &["0", "1", "7", "9", "a", "f", "A", "F", "g", "x", "-", "+", " ", ".", "_", "é", "ß", "Ω", "中", "€", "😀", "\u{301}"];
+    let s = &seeds[rng.usize_below(seeds.len())];
+    let (ext, want): (&str, usize) = if s.data.ends_with(b".lru") || s.data.ends_with(b".LRU") { (".lru", 20) } else { (".idx", 14) };
+    let ext = match rng.below(6) {
+        0 => ext.to_uppercase(),
+        1 => String::new(),
+        2 => format!("{ext}x"),
+        _ => ext.to_string(),
+    };
+    let target_len = match rng.below(8) {
+        0 => want + 1,
+        1 => want.saturating_sub(1),
+        2 => rng.urange(1, 40),
+        _ => want,
+    };
+    let stem_len = target_len.saturating_sub(ext.len());
+    let mut name = String::new();
+    let hexish = rng.chance(2, 3);
+    let mut guard = 0;
+    while name.len() < stem_len && guard < 200 {
+        guard += 1;
+        let a = if hexish && rng.chance(5, 6) { ATOMS[rng.usize_below(8)] } else { ATOMS[rng.usize_below(ATOMS.len())] };
+        if name.len() + a.len() <= stem_len {
+            name.push_str(a);
+        } else if stem_len - name.len() == 1 {
+            name.push('0');
+        }
+    }
+    name.push_str(&ext);
+    Case { data: name.clone().into_bytes(), aux: s.aux.clone(), flags: rng.next_u32() & 0xff, origin: format!("file name {name:?} ({} bytes)", name.len()) }
+}
+
+/// Patch index: boundary values in the header of an inner block. The block table (type, size)
+/// sits at the end of the file header; a type-8 block is only decoded when no type-2 block
+/// precedes it, so the type-2 descriptor is retyped first, then ONE field of the 14-byte
+/// block-8 header (or of the 5-byte block-2 header) is replaced. `data_size` stays consistent.
+pub fn patch_index_inner_block(rng: &mut Rng, seeds: &[Seed]) -> Option<Case> {
+    let s = &seeds[rng.usize_below(seeds.len())];
+    let d = &s.data;
+    if d.len() < 18 {
+        return None;
+    }
+    let le32 = |o: usize| -> Option<usize> { d.get(o..o + 4).map(|b| u32::from_le_bytes([b[0], b[1], b[2], b[3]]) as usize) };
+    let header_size = le32(0)?;
+    let extra = usize::from(u16::from_le_bytes([d[12], d[13]]));
+    let table = 14 + extra;
+    let count = le32(table)?;
+    if count == 0 || count > 64 || header_size > d.len() {
+        return None;
+    }
+    // (descriptor offset, type, block offset, size)
+    let mut blocks = Vec::new();
+    let mut off = header_size;
+    for i in 0..count {
+        let desc = table + 4 + i * 8;
+        let ty = le32(desc)?;
+        let size = le32(desc + 4)?;
+        blocks.push((desc, ty, off, size));
+        off = off.checked_add(size)?;
+    }
+    if off > d.len() {
+        return None;
+    }
+    let mut data = d.clone();
+    let b2 = blocks.iter().find(|b| b.1 == 2).copied();
+    let b8 = blocks.iter().find(|b| b.1 == 8).copied();
+    let vals32: [u32; 12] = [0, 1, 2, 61, 62, 0x7fff_ffff, 0x8000_0000, u32::MAX, 0x0100_0000, 0x0001_0000, (d.len() / 61) as u32, (d.len() / 61 + 1) as u32];
+    let mut note;
+    let use8 = b8.is_some() && (b2.is_none() || rng.chance(3, 4));
+    if use8 {
+        let (_, _, boff, bsize) = b8?;
+        if let Some((desc2, ..)) = b2 {
+            // block 2 out of the way: block 8 becomes the entry source
+            data[desc2..desc2 + 4].copy_from_slice(&(*rng.pick(&[1u32, 3, 9, 0])).to_le_bytes());
+        }
+        note = format!("block8@{boff}+{bsize}");
+        if bsize < 14 || boff + 14 > data.len() {
+            return None;
+        }
+        match rng.below(8) {
+            7 => {
+                // a key size the entry decoder refuses (> 16) with few entries, so that the block
+                // is long enough for the announced entries and the decoder itself is reached
+                data[boff + 1] = *rng.pick(&[17u8, 18, 32, 64]);
+                data[boff + 4..boff + 8].copy_from_slice(&(*rng.pick(&[1u32, 2, 3])).to_le_bytes());
+            }
+            0 => data[boff] = *rng.pick(&[0u8, 2, 3, 4, 255]),
+            1 => data[boff + 1] = *rng.pick(&[0u8, 1, 8, 9, 15, 16, 17, 32, 255]),
+            2 => {
+                let v = *rng.pick(&[0u16, 1, 13, 14, 15, 0x7fff, 0xffff, bsize as u16, (bsize as u16).wrapping_sub(1)]);
+                data[boff + 2..boff + 4].copy_from_slice(&v.to_le_bytes());
+            }
+            3 | 4 => data[boff + 4..boff + 8].copy_from_slice(&rng.pick(&vals32).to_le_bytes()),
+            5 => {
+                // shrink the block (descriptor size) so that the announced entries overflow it
+                let (desc8, ..) = b8?;
+                let new = *rng.pick(&[0u32, 13, 14, 15, 14 + 61, (bsize as u32).saturating_sub(1), (bsize as u32) / 2]);
+                data[desc8 + 4..desc8 + 8].copy_from_slice(&new.to_le_bytes());
+            }
+            _ => {
+                let o = boff + rng.usize_below(14);
+                data[o] = rng.next_u32() as u8;
+            }
+        }
+        note.push_str(" one-field");
+    } else {
+        let (_, _, boff, bsize) = b2?;
+        note = format!("block2@{boff}+{bsize}");
+        if bsize < 5 || boff + 5 > data.len() {
+            return None;
+        }
+        match rng.below(3) {
+            0 => data[boff..boff + 4].copy_from_slice(&rng.pick(&vals32).to_le_bytes()),
+            1 => data[boff + 4] = *rng.pick(&[0u8, 1, 8, 9, 15, 16, 17, 32, 255]),
+            _ => {
+                data[boff + 4] = *rng.pick(&[17u8, 18, 32, 64]);
+                data[boff..boff + 4].copy_from_slice(&(*rng.pick(&[1u32, 2, 3])).to_le_bytes());
+            }
+        }
+    }
+    Some(Case { data, aux: s.aux.clone(), flags: 0, origin: format!("{} inner block header field: {note}", s.name) })
+}
+
+/// Archive index / archive group: zero whole records (or a run of them) inside a data chunk
+/// that is NOT the last one. The parser treats an all-zero record as the padding that ends a
+/// chunk, so the accepted structure then has fewer entries than `chunks x records-per-chunk`
+/// while the table of contents still has one key per chunk — the inconsistency the lookups
+/// (`binary_search_key`, `find_all_entries`, chunk loader) have to survive.
+pub fn archive_index_hole(rng: &mut Rng, seeds: &[Seed]) -> Option<Case> {
+    let s = &seeds[rng.usize_below(seeds.len())];
+    let d = &s.data;
+    if d.len() < 28 + 4096 {
+        return None;
+    }
+    let f = d.len() - 28;
+    // footer: toc_hash[8] version reserved[2] page_size_kb offset_bytes size_bytes ekey_length hash_bytes count[4] hash[8]
+    let page = usize::from(d[f + 11]) * 1024;
+    let rec = usize::from(d[f + 12]) + usize::from(d[f + 13]) + usize::from(d[f + 14]);
+    let count = u32::from_le_bytes([d[f + 16], d[f + 17], d[f + 18], d[f + 19]]) as usize;
+    if page == 0 || rec == 0 || count == 0 {
+        return None;
+    }
+    let per = page / rec;
+    let chunks = count.div_ceil(per.max(1));
+    if chunks == 0 || chunks * page > d.len() {
+        return None;
+    }
+    let mut data = d.clone();
+    let holes = 1 + rng.usize_below(3);
+    let mut note = String::new();
+    for _ in 0..holes {
+        let c = if chunks > 1 && rng.chance(4, 5) { rng.usize_below(chunks - 1) } else { rng.usize_below(chunks) };
+        let in_chunk = if c + 1 == chunks { (count - c * per).max(1) } else { per };
+        let r = match rng.below(4) {
+            0 => 0,
+            1 => in_chunk - 1,
+            _ => rng.usize_below(in_chunk),
+        };
+        let n = match rng.below(4) {
+            0 => in_chunk - r,
+            _ => 1,
+        };
+        let a = c * page + r * rec;
+        let b = (a + n * rec).min(data.len());
+        data[a..b].fill(0);
+        use std::fmt::Write;
+        let _ = write!(note, " chunk {c} records {r}..{}", r + n);
+    }
+    Some(Case { data, aux: s.aux.clone(), flags: rng.next_u32() & 0xff, origin: format!("{} zeroed records:{note}", s.name) })
+}
+
+/// Boundary values in named fields that lie outside the swept header regions (DESIGN §6 C02
+/// "boundary tables"): (offset, width) of little-endian fields per family.
+pub fn field_table(family: &str) -> &'static [(usize, usize)] {
+    match family {
+        // shmem control block v5: exclusive flag, then the PID-tracking header at 0x154:
+        // state, writer_count, total_count, last_modified_slot, generation (u64), max_slots,
+        // first PID slots and first mode slots (8 slots in the seed)
+        "shmem" => &[(0x150, 4), (0x154, 4), (0x158, 4), (0x15c, 4), (0x160, 4), (0x164, 8), (0x16c, 4), (0x170, 4), (0x174, 4), (0x18c, 4), (0x190, 4), (0x194, 4)],
+        _ => &[],
+    }
+}
+
+/// One to three table fields of a seed set to boundary values (the rest of the file intact).
+pub fn fields_case(rng: &mut Rng, seeds: &[Seed], table: &[(usize, usize)]) -> Option<Case> {
+    // prefer the largest seed (the one that has the optional trailing structures)
+    let s = if rng.chance(3, 4) { seeds.iter().max_by_key(|s| s.data.len())? } else { &seeds[rng.usize_below(seeds.len())] };
+    let mut data = s.data.clone();
+    let mut note = String::new();
+    let n = 1 + rng.usize_below(3);
+    for _ in 0..n {
+        let &(off, w) = rng.pick(table);
+        if off + w > data.len() {
+            continue;
+        }
+        let max = if w >= 8 { u64::MAX } else { (1u64 << (8 * w)) - 1 };
+        let v = *rng.pick(&[0u64, 1, 2, 3, 7, 8, 9, max, max - 1, max >> 1, (max >> 1) + 1, 0x100, 0xffff]) & max;
+        write_value(&mut data, off, Variant(w, false, v));
+        use std::fmt::Write;
+        let _ = write!(note, " le{}@{off:#x}={v:#x}", w * 8);
+    }
+    if data == s.data {
+        return None;
+    }
+    Some(Case { data, aux: s.aux.clone(), flags: rng.next_u32() & 0xff, origin: format!("{} field table:{note}", s.name) })
+}
+
 /// Random job -> case. `seeds` = the family of the target, `pool` = seeds of all families.
 pub fn random_case(rng: &mut Rng, seeds: &[Seed], pool: &[&Seed], text: bool) -> Case {
     let roll = rng.below(100);
     // purely random bytes
     if roll < 4 {
         let n = rng.size_biased(4096);
-        return Case { data: rng.bytes(n), aux: seeds.first().map(|s| s.aux.clone()).unwrap_or_default(), flags: rng.next_u32() & 1, origin: format!("random bytes len={n}") };
+        return Case { data: rng.bytes(n), aux: seeds.first().map(|s| s.aux.clone()).unwrap_or_default(), flags: rng.next_u32() & 0xff, origin: format!("random bytes len={n}") };
     }
     // cross-format: another family's seed (possibly mutated once)
     if roll < 7 && !pool.is_empty() {
@@ -478,7 +691,7 @@ pub fn random_case(rng: &mut Rng, seeds: &[Seed], pool: &[&Seed], text: bool) ->
             // keep the footer as well (archive index: fields live in the last 28 bytes)
             data.extend_from_slice(&s.data[s.data.len() - 28..]);
         }
-        return Case { data, aux: s.aux.clone(), flags: rng.next_u32() & 1, origin: format!("{} keep-prefix {} + random {}", s.name, keep, n) };
+        return Case { data, aux: s.aux.clone(), flags: rng.next_u32() & 0xff, origin: format!("{} keep-prefix {} + random {}", s.name, keep, n) };
     }
     if roll < 20 {
         let (data, origin) = repetition(rng, s, text);
@@ -511,5 +724,5 @@ pub fn random_case(rng: &mut Rng, seeds: &[Seed], pool: &[&Seed], text: bool) ->
     if data.len() > 2 << 20 {
         data.truncate(2 << 20);
     }
-    Case { data, aux, flags: rng.next_u32() & 1, origin: format!("{}{}", s.name, notes) }
+    Case { data, aux, flags: rng.next_u32() & 0xff, origin: format!("{}{}", s.name, notes) }
 }
